@@ -11,7 +11,7 @@ and do not fail the run; anything else does.  Exit status 0 only if all matched.
 
   roundtrip.py [-n SEEDS] [--seed BASE] [--formats cab,chm,...] [--sizes small,medium,large] [--keep] [-v]
 """
-import argparse, collections, os, random, shutil, subprocess, sys, tempfile, time, zlib
+import argparse, collections, os, random, shutil, subprocess, sys, tempfile, time
 sys.path.insert(0, os.path.dirname(os.path.abspath(__file__)))
 from vgen import cab, chm, kwaj, oab, szdd
 
@@ -66,7 +66,9 @@ def check_cab(ck, case, recs, outdir):
     meta = case['meta']; members = case['members']
     subs = meta['sub'] if meta['open'] == 'search' else [meta]
     hidden = set(meta.get('hidden_by_find_defect', []))
+    if sum(1 for r in recs if r[0] == 'cab') == len(subs): hidden = set()      # library has the cabd_find fix
     for k in hidden: ck.quirks.append('cabd_find misses cabinet %d (preceded by M/MS/MSC)' % k)
+    members = [m for m in members if m.get('cab') not in hidden]
     for r in recs:
         if r[0] in ('open', 'append', 'search'): ck.eq(r[0] + ' status', r[2]['st'], '0')
     want_cabs = [c for k, s in enumerate(subs) if k not in hidden for c in s['expect']['cabs']]
@@ -85,8 +87,8 @@ def check_cab(ck, case, recs, outdir):
         ck.eq('file name', unhex(g['name']), m['name'])
         ck.eq('file fields %r' % m['name'][:30], (int(g['len']), int(g['off']), int(g['attr'], 16), g['date'], g['time'], int(g['folder'])),
               (len(m['data']), m['offset'], m['attribs'], '%d/%d/%d' % m['date'], '%d:%d:%d' % m['time'], m['folder']))
-    quirky = {int(q.rsplit('folder', 1)[1]): q for q in meta.get('quirks', [])}
-    check_extracts(ck, recs, outdir, members, lambda i: quirky.get(members[i]['folder']))
+    quirky = {(k, int(q.rsplit('folder', 1)[1])): q for k, s in enumerate(subs) for q in s.get('quirks', [])}
+    check_extracts(ck, recs, outdir, members, lambda i: quirky.get((members[i].get('cab', 0), members[i]['folder'])))
 
 
 def check_chm(ck, case, recs, outdir):
@@ -139,6 +141,18 @@ def run_case(exe, case, scratch, verbose=False):
     return ck, d
 
 
+def fixture_check():
+    """rebuild the makecab-produced split set shipped with cabextract from its own
+    parts: parse -> join_set -> build_set must give the same five files"""
+    d = os.path.join(os.path.dirname(REPO.rstrip('/')), '..', 'cabextract', 'test', 'cabs')
+    try: orig = [open(os.path.join(d, 'split-%d.cab' % i), 'rb').read() for i in range(1, 6)]
+    except OSError: return None
+    p = [cab.parse(x) for x in orig]; lf, files, cuts = cab.join_set(p)
+    names = [p[1]['prev']] + [x['next'] for x in p[:-1]]
+    out = cab.build_set(lf, files, cuts, names, set_id=p[0]['set_id'], reserve=p[0]['reserve'], version=p[0]['version'])
+    return out == orig
+
+
 def flatten(meta, prefix=''):
     """meta -> [(key, value-as-text)] for the feature histogram"""
     for k, v in meta.items():
@@ -156,9 +170,9 @@ def flatten(meta, prefix=''):
 
 
 def bucket(key, val):
-    if val.lstrip('-').isdigit() and key.split('.')[-1] not in ('lzx_window', 'qtm_window', 'parts', 'nfolders', 'window_bits', 'depth', 'density', 'version', 'comp', 'reset_interval', 'embedded', 'frames', 'nblocks'):
+    if val.lstrip('-').isdigit() and int(val) > 24:
         n = int(val)
-        for lim in (0, 1, 10, 100, 1000, 10000, 100000, 1000000):
+        for lim in (100, 1000, 10000, 100000, 1000000):
             if n <= lim: return '<=%d' % lim
         return '>1e6'
     return val
@@ -177,6 +191,9 @@ def main():
     bad = 0
     try:
         exe = build_driver(scratch)
+        fx = fixture_check()
+        print('fixture: split-[1-5].cab rebuilt by cab.build_set: %s' % {None: 'not found', True: 'byte-identical', False: 'DIFFERENT'}[fx])
+        bad += fx is False
         for fmt in a.formats.split(','):
             t0 = time.time(); ncase = nmem = nbytes = nin = 0; hist = collections.Counter(); quirks = collections.Counter(); fails = []
             for size in a.sizes.split(','):
